@@ -147,10 +147,10 @@ func runC17(c *fw.Case) (o fw.Outcome) {
 			var v4, v6 string
 			mode := i % 3
 			if mode != 1 {
-				v4 = pick(r, "0.0.0.0", "255.255.255.255", "10.0.0.1", "127.0.0.1", "192.168.61.3", net.IP(rbytes(r, 4)).String())
+				v4 = pick(r, "0.0.0.0", "255.255.255.255", "10.0.0.1", "127.0.0.1", "192.168.61.3", net.IP(rbytes(r, 4)).String(), ipv4Class(r).String(), ipv4Class(r).String())
 			}
 			if mode != 0 {
-				ip6 := net.IP(rbytes(r, 16))
+				ip6 := ipv6Class(r)
 				switch r.Intn(9) {
 				case 0:
 					ip6 = net.ParseIP("::")
